@@ -65,6 +65,32 @@ def safe_names(draw, n: int, words=PROP_WORDS, styles=("camel", "snake", "kebab"
 
 # ------------------------------------------------------------------------------------------ profiles
 
+# request media types as documents really spell them: with parameters, and custom types that only the content_type_overrides option
+# makes usable (ALIAS_MEDIA: the configuration maps the key to the value). The declared key is what must be sent.
+JSON_MEDIA_SPELLINGS = ["application/json; version=2", "application/json;charset=utf-8", "application/vnd.api+json; profile=x",
+                        "application/vnd.acme.widget", "application/x-acme-json; v=1"]
+FORM_MEDIA_SPELLINGS = ["application/x-www-form-urlencoded; charset=utf-8", "application/x-acme-form"]
+OCTET_MEDIA_SPELLINGS = ["application/octet-stream; x=1", "application/x-acme-bytes"]
+ALIAS_MEDIA = {"application/vnd.acme.widget": "application/json", "application/x-acme-json; v=1": "application/json",
+               "application/x-acme-form": "application/x-www-form-urlencoded", "application/x-acme-bytes": "application/octet-stream"}
+
+
+def media_base(mt: str) -> str:
+    """The media type a (possibly parameterised or aliased) request media type key behaves as."""
+    mt = ALIAS_MEDIA.get(mt, mt)
+    return mt.split(";")[0].strip()
+
+
+def media_overrides(ir: dict) -> dict:
+    """content_type_overrides entries the document's request media types need."""
+    out = {}
+    for op in ir.get("ops", []):
+        for c in (op.get("body") or {}).get("content", []):
+            if c[0] in ALIAS_MEDIA:
+                out[c[0]] = ALIAS_MEDIA[c[0]]
+    return out
+
+
 DEFAULT_PROFILE: dict[str, Any] = {
     "scalars": SCALARS,
     "any": True,            # untyped schemas
@@ -111,6 +137,7 @@ DEFAULT_PROFILE: dict[str, Any] = {
     "quote_enum_values": False,     # string enum values containing quote characters, braces, backticks
     "multipart_models": False,      # multipart parts that are models / unions with a model (sent as JSON parts)
     "const_everywhere": False,      # const schemas also as parameters, bodies, responses, array items and union members
+    "media_spellings": False,       # request media types with parameters / custom types mapped by content_type_overrides
 }
 
 
@@ -597,7 +624,7 @@ def body_ir(draw, prof, comp_names, obj_names):
     content = []
     for kd in chosen:
         if kd == "json":
-            mt = draw(st.sampled_from(["application/json", "application/vnd.api+json"]))
+            mt = draw(st.sampled_from(["application/json", "application/vnd.api+json"] + (JSON_MEDIA_SPELLINGS if prof.get("media_spellings") else [])))
             sch = draw(schema_ir(profile(**{**prof, "const": bool(prof.get("const_everywhere")), "union": False}), obj_names or comp_names, 1, "body"))
             if sch["k"] in ("any",):
                 sch = {"k": "str"}
@@ -610,11 +637,13 @@ def body_ir(draw, prof, comp_names, obj_names):
                     sch = {"k": "str"}  # a Literal[...] alias is a subscripted generic too (literal_enums)
             content.append([mt, sch])
         elif kd == "form":
-            content.append(["application/x-www-form-urlencoded", draw(flat_object(prof))])
+            content.append([draw(st.sampled_from(["application/x-www-form-urlencoded"] * 3 + (FORM_MEDIA_SPELLINGS if prof.get("media_spellings") else [])))
+                            if prof.get("media_spellings") else "application/x-www-form-urlencoded", draw(flat_object(prof))])
         elif kd == "multipart":
             content.append(["multipart/form-data", draw(flat_object(prof, files=True, obj_names=obj_names))])
         else:
-            content.append(["application/octet-stream", {"k": "binary"}])
+            content.append([draw(st.sampled_from(["application/octet-stream"] * 3 + OCTET_MEDIA_SPELLINGS)) if prof.get("media_spellings")
+                            else "application/octet-stream", {"k": "binary"}])
     return {"required": True, "content": content}
 
 
